@@ -235,11 +235,20 @@ def check_numbers(ctx, prog):
                   'the buffer reserved before formatting (%s+1 bytes), the snprintf size (%s) and the widest text of %s (%d characters + NUL) do not nest: the number is truncated (an embedded NUL ends the text) or written past the reserve'
                   % (extra, size, sorted(set(fmts[fld])), wmax))
         # non-finite guard dominates snprintf
+        # non-finite values never reach snprintf: the guards of the call evaluated with the argument bound to inf, -inf, NaN
         g = q.Guarded(f)
-        fin = any(kind == 'after' and pol is False and any(w.get('k') == 'call' and (w.get('fn') or '').lstrip('_') in ('isfinite', 'builtin_isfinite', 'finite') for w in walk_expr(c)) for c, pol, kind in g.of(sn[0])) or \
-            any(kind == 'after' and any(w.get('k') == 'call' and 'finite' in (w.get('fn') or '') for w in walk_expr(c)) for c, pol, kind in g.of(sn[0]))
-        ctx.check(fin, 'C05.numbers', f['pq'], role + ':non-finite values never formatted', fwhere(f, sn[0]['l']), 'isfinite guard returns before snprintf',
-                  'snprintf is reachable for infinite/NaN values: the output "inf"/"nan" is not valid JSON and does not decode')
+        import bounded as _b
+        verdicts = []
+        for v in (float('inf'), float('-inf'), float('nan')):
+            ev = _b.Bound(prog, f, {f['params'][0]['id']: v}, {})
+            verdicts.append(_b.admitted3(ev, g.of(sn[0]), g, relevant=lambda c_: any(w.get('k') == 'var' and w.get('id') == f['params'][0]['id'] for w in walk_expr(q.expand(f, c_)))))
+            ctx.evaluations += 1
+        if any(v is True for v in verdicts):
+            ctx.violation('C05.numbers', f['pq'], role + ':non-finite values never formatted', fwhere(f, sn[0]['l']), 'snprintf is reachable for infinite/NaN values: the output "inf"/"nan" is not valid JSON and does not decode')
+        elif any(v is None for v in verdicts):
+            ctx.undecided('C05.numbers', f['pq'], role + ':non-finite values never formatted', fwhere(f, sn[0]['l']), 'a guard of the snprintf call that mentions the argument is not evaluable for inf / NaN')
+        else:
+            ctx.ok('C05.numbers', f['pq'], role + ':non-finite values never formatted', fwhere(f, sn[0]['l']), 'the guards of snprintf exclude inf, -inf and NaN')
     f = fn1(prog, 'asl::XdlEncoder::new_number', '(int)')
     ctx.analysed(f)
     rs = [e for e in fn_exprs(f) if e.get('k') == 'call' and e.get('pq') == 'asl::String::resize']
